@@ -1,7 +1,9 @@
 //! vmcheck: bounded exhaustive exploration of rust-vmm/vm-memory against reference models.
 //! Usage: vmcheck <property-id> [--tier quick|thorough] [--replay <file>] [--part <name>]
 
+mod arena;
 mod explore;
+mod interpose;
 mod report;
 mod sched;
 mod props;
